@@ -58,6 +58,7 @@
 (*   cfg    the configuration: lattice point + every derived parameter      *)
 (*   stage  "pick" "start" "placed" "flipped" "tilted" "shifted" "origin"   *)
 (*          "diffed" "rotated" "projected" | "uncomputed" (terminal: last 2) *)
+(*          SpecAx: "axis" "axrotated" (terminal); lat = <<axis, pre>> index *)
 (*   pix    (slow, fast) detector-plane vector after Place (thirds)         *)
 (*   xyz    scaled lab position of the spot                                 *)
 (*   org    scaled grain origin o                                           *)
@@ -65,8 +66,8 @@
 (*   G      scaled rotation taking lab scattering vectors to g-vectors      *)
 (*   out    results of RotateG / Project / Uncompute                        *)
 (*                                                                         *)
-(* THREE MACHINES (a .cfg selects one: SpecFwd / SpecInv / SpecRaw; Next is  *)
-(* shared)                                                                 *)
+(* FOUR MACHINES (a .cfg selects SpecFwd / SpecInv / SpecRaw / SpecAx, or    *)
+(* SpecRawAx = raw and axis machine in one run; Next is shared)             *)
 (*   SpecFwd  lattice: SWITCHSETS (on/off of tilt_x tilt_y tilt_z wedge chi *)
 (*            t_x t_y t_z) x FLIPS x SIGNS (omegasign) x SIZES (pixel-size  *)
 (*            sign pairs) x PEAKS x OMEGAS, picked by PickSwitches,          *)
@@ -86,6 +87,30 @@
 (*   SpecRaw  lambda g = (sn/sd) q/|q| given directly (blind-cone vectors   *)
 (*            along / near the axis, |g| = 2/lambda, |g| > 2/lambda).       *)
 (*            Uncompute.                                                    *)
+(*   SpecAx   the documented conventions of gv_general.py 40-188 (one more  *)
+(*            machine, not a stage of the pipeline): a rotation by `omega`  *)
+(*            about a unit axis n (AxisList: +-z, x, -y and three oblique   *)
+(*            axes n/|n| with integer |n|) is                               *)
+(*               rot(n, a) p = p cos a + n (n.p)(1 - cos a) + (n x p) sin a  *)
+(*            (docstring of rotation_axis.rotate_vectors; right handed),    *)
+(*            as a matrix  R = I cos a + [n]x sin a + n n^T (1 - cos a),    *)
+(*            and  g = pre . rot(axis, angle) . post . k  (docstring of     *)
+(*            k_to_g) with post = chiwedge = Rx(-chi).Ry(wedge) = (WI.CI)^T,*)
+(*            pre from PreList, lambda k = d/|d| - e_x of a Pythagorean     *)
+(*            quadruple.  One action RotateAx; the record carries R, R^-1,  *)
+(*            post.k, R.post.k, g and the first row of WI.CI.  Non-unit     *)
+(*            axis directions are outside the model (every caller of the    *)
+(*            pipeline passes +-z).                                         *)
+(*                                                                         *)
+(* INSTANCE FAMILIES OF THE HARNESS ONLY (the model is covariant under      *)
+(* them, the expectation stays the record's): batch length / thread count, *)
+(* how a columnfile names and stores its columns (sc,fc / xc,yc titles,     *)
+(* list of arrays / one 2-D array, copy, filter), caller-supplied output    *)
+(* buffers, histories of one object, the Python type of a parameter (float  *)
+(* / int / text through dumbtypecheck), a shift of the diffraction origin   *)
+(* along the beam by a rational (compute_gve xpos, get_local_gv grids:      *)
+(* d = xyz - x e_x - o from the record's exact xyz, o and G), a rotation A  *)
+(* of g paired with g_to_k's pre = A, the default axis +z of g_to_k.        *)
 (*                                                                         *)
 (* INVARIANTS                                                              *)
 (*   TypeOK                                                                *)
@@ -102,6 +127,10 @@
 (*                (or the geometry is degenerate: a = b = c = 0, beam along *)
 (*                the rotation axis - found by TLC, not anticipated)        *)
 (*   EwaldBound   valid => |lambda g| <= 2                                  *)
+(*   AxisLaw      (SpecAx) R is a rotation that fixes n; rot(n,-a) is its   *)
+(*                inverse; matrix form = vector form of the docstring;      *)
+(*                rot(+-z, a) = Rz(+-a); with axis -z and pre = I the       *)
+(*                vector g is the pipeline's G k (G of RotateG at omega)    *)
 (*   Emit         prints one JSON record per terminal state                 *)
 (***************************************************************************)
 EXTENDS ExactLA, Json
@@ -115,7 +144,8 @@ CONSTANTS SWITCHSETS,   \* set of subsets of SwNames
           INVANG,       \* set of <<wedge, chi, omega>> angle triples for InitInv
           RAWANG,       \* set of <<wedge, chi>> for InitRaw
           QUADS,        \* subset of 1..Len(QuadList)
-          SCALES        \* set of <<sn, sd>> for InitRaw
+          SCALES,       \* set of <<sn, sd>> for InitRaw
+          AXQUADS       \* subset of 1..Len(QuadList): the k-vectors of InitAx (its angle triples come from INVANG)
 
 VARIABLES lat, cfg, stage, pix, xyz, org, d, G, out
 vars == <<lat, cfg, stage, pix, xyz, org, d, G, out>>
@@ -259,7 +289,29 @@ RAWANG_all == { a \in Ang \X Ang : a[1][3] = 1 \/ a[2][3] = 1 \/ a[1][3] # a[2][
 RAWANG_q   == { a \in RAWANG_all : a[1] \in {AngZero, <<0,1,1>>, <<4,3,5>>, <<5,-12,13>>} /\
                                    a[2] \in {AngZero, <<0,-1,1>>, <<-7,24,25>>, <<3,-4,5>>} }
 SCALES_all == { <<1,2>>, <<1,1>>, <<3,2>>, <<2,1>>, <<5,2>> }
+\* angle triples <<wedge, chi, angle of the axis rotation>> of SpecAx (assigned to INVANG in Geometry_raw_*.cfg)
+AXANG_all  == INVANG_all
+AXANG_q    == { a \in INVANG_all : a[1] \in {AngZero, <<0,1,1>>, <<4,3,5>>} /\ a[2] \in {AngZero, <<-1,0,1>>, <<5,-12,13>>} }
 NONE == {}
+
+\* ---------------------------------------------------------------------------------------
+\* axis / angle rotations (SpecAx).  An axis is <<N, nd>> with |N| = nd (unit vector N/nd).
+AxisList == << << <<0,0,1>>, 1 >>,  << <<0,0,-1>>, 1 >>, << <<1,0,0>>, 1 >>, << <<0,-1,0>>, 1 >>,
+               << <<2,3,6>>, 7 >>,  << <<-6,2,3>>, 7 >>, << <<1,-2,2>>, 3 >> >>
+ASSUME \A i \in 1..Len(AxisList) : Norm2(AxisList[i][1]) = AxisList[i][2] * AxisList[i][2]
+\* pre-rotations: identity, a quarter turn, a Pythagorean turn about z, a product of two right-angle turns
+PreList  == << <<M2T(I3), 1>>, <<Rx(<<0,1,1>>), 1>>, <<Rz(<<3,-4,5>>), 5>>,
+               <<M2T(MM(Ry(<<0,-1,1>>), Rz(<<-1,0,1>>))), 1>> >>
+Hat(n) == << <<0, 0 - n[3], n[2]>>, <<n[3], 0, 0 - n[1]>>, <<0 - n[2], n[1], 0>> >>
+\* matrix form, scaled by nd^2 a[3]
+AxisRot(ax, a) ==
+   LET N == ax[1]   nd == ax[2] IN
+   << M2T(MAdd(MAdd(MScale(nd * nd * a[1], I3), MScale(nd * a[2], Hat(N))), MScale(a[3] - a[1], Outer(N, N)))),
+      nd * nd * a[3] >>
+\* vector form (the formula of the docstring), same scale
+AxisRotVec(ax, a, p) ==
+   LET N == ax[1]   nd == ax[2] IN
+   VAdd(VAdd(VScale(nd * nd * a[1], p), VScale((a[3] - a[1]) * Dot(N, p), N)), VScale(nd * a[2], Cross(N, p)))
 
 \* ---------------------------------------------------------------------------------------
 \* matrices of a configuration (all scaled: <<rows, den>>)
@@ -295,6 +347,15 @@ InitRaw == /\ \E a \in RAWANG, qi \in QUADS, sc \in SCALES :
                  /\ cfg = RawCfg(<<a[1], a[2], AngZero>>, qi, sc)
                  /\ G = GOf(cfg, AngZero)
            /\ lat = <<>> /\ stage = "rotated" /\ pix = <<0,0>> /\ xyz = Zv /\ org = Zv /\ d = Zv /\ out = [none |-> 0]
+
+\* the axis machine: configuration = angle triple x quadruple x axis x pre-rotation
+AxCfg(a, qi) ==
+   [ BaseCfg EXCEPT !.mode = "ax", !.wedge = a[1], !.chi = a[2], !.omega = a[3],
+                    !.omegas = [k \in 1..4 |-> a[3]], !.q = qi, !.wl = WLList[(qi % 3) + 1], !.salt = qi ]
+InitAx == /\ \E a \in INVANG, qi \in AXQUADS, ai \in 1..Len(AxisList), pi \in 1..Len(PreList) :
+                /\ cfg = AxCfg(a, qi)
+                /\ lat = << ai, pi >>
+          /\ stage = "axis" /\ InitCommon
 
 \* ---------------------------------------------------------------------------------------
 \* the pipeline, one action per documented stage
@@ -375,8 +436,31 @@ Uncompute == /\ stage = "rotated" /\ cfg.mode \in {"inv", "raw"}
                             degenerate |-> (an = 0 /\ bn = 0 /\ cn = 0) ]
              /\ stage' = "uncomputed" /\ UNCHANGED <<lat, cfg, pix, xyz, org, d, G>>
 
+\* g = pre . rot(axis, angle) . post . k   (all numerators stay below 2^25: den <= 13 * 325 * 49*25 * 5)
+RotateAx == /\ stage = "axis"
+            /\ LET ax   == AxisList[lat[1]]
+                   pre  == PreList[lat[2]]
+                   R    == AxisRot(ax, cfg.omega)
+                   W    == WC(cfg)
+                   post == << M2T(Transpose(W[1])), W[2] >>          \* chiwedge = Rx(-chi).Ry(wedge) = (WI.CI)^T
+                   nq   == QuadList[cfg.q][2]
+                   lk   == VSub(QuadList[cfg.q][1], <<nq, 0, 0>>)    \* lambda k = d/|d| - e_x , den nq
+                   pk   == MV(post[1], lk)
+                   rpk  == MV(R[1], pk)
+                   gg   == MV(pre[1], rpk)
+               IN out' = [ R |-> R, Rinv |-> AxisRot(ax, AngNeg(cfg.omega)),
+                           lk |-> << lk, nq >>, pk |-> << pk, nq * post[2] >>,
+                           rpk |-> << rpk, nq * post[2] * R[2] >>,
+                           rpkvec |-> AxisRotVec(ax, cfg.omega, pk),
+                           g |-> << gg, nq * post[2] * R[2] * pre[2] >> ]
+            /\ stage' = "axrotated" /\ UNCHANGED <<lat, cfg, pix, xyz, org, d, G>>
+
 Next == PickSwitches \/ PickDetector \/ PickPeak \/ Place \/ Flip \/ Tilt \/ Shift \/ Origin \/ Diff \/ RotateG \/ Project \/ Uncompute
+        \/ RotateAx
 SpecFwd == InitFwd /\ [][Next]_vars
+SpecAx  == InitAx /\ [][Next]_vars
+\* the raw-vector machine and the axis machine share no state and no action: one TLC run checks both (Geometry_raw_*.cfg)
+SpecRawAx == (InitRaw \/ InitAx) /\ [][Next]_vars
 SpecInv == InitInv /\ [][Next]_vars
 SpecRaw == InitRaw /\ [][Next]_vars
 
@@ -387,9 +471,9 @@ IsRot(sm) == IsOrthoScaled(sm[1], sm[2]) /\ Cross(sm[1][1], sm[1][2]) = VScale(s
 ASSUME \A a \in Ang : IsRot(<<Rz(a), a[3]>>) /\ ~IsRot(<<M2T(MScale(-1, Rz(a))), a[3]>>) /\ Det(Ry(a)) = a[3] * a[3] * a[3]
 IsSVec(sv) == sv[2] > 0 /\ \A i \in 1..3 : sv[1][i] \in Int
 TypeOK == /\ stage \in {"pick", "start", "placed", "flipped", "tilted", "shifted", "origin", "diffed", "rotated",
-                        "projected", "uncomputed"}
+                        "projected", "uncomputed", "axis", "axrotated"}
           /\ IsSVec(xyz) /\ IsSVec(org) /\ IsSVec(d) /\ G[2] > 0
-          /\ cfg.mode \in {"fwd", "inv", "raw"}
+          /\ cfg.mode \in {"fwd", "inv", "raw", "ax"}
           /\ \A a \in {cfg.tilt_x, cfg.tilt_y, cfg.tilt_z, cfg.wedge, cfg.chi, cfg.omega} : a \in Ang
           /\ 1625 % (cfg.tilt_x[3] * cfg.tilt_y[3] * cfg.tilt_z[3] * cfg.wedge[3] * cfg.chi[3] * cfg.omega[3]) = 0
 
@@ -431,6 +515,22 @@ Roundtrip ==
 EwaldBound == (stage = "uncomputed" /\ out.valid) =>
                  Norm2(out.gam[1]) <= 4 * out.gam[2] * out.gam[2]
 
+AxisLaw == (stage = "axrotated") =>
+   LET ax == AxisList[lat[1]]
+       R  == out.R
+       n2 == R[2] * R[2]
+   IN /\ IsRot(R) /\ IsRot(out.Rinv)
+      /\ MV(R[1], ax[1]) = VScale(R[2], ax[1])                              \* the axis is fixed
+      /\ M2T(MM(R[1], out.Rinv[1])) = M2T(MScale(n2, I3))                   \* rot(n, -a) is the inverse
+      /\ out.Rinv[1] = M2T(Transpose(R[1]))
+      /\ out.rpk[1] = out.rpkvec                                            \* matrix form = documented vector form
+      /\ (ax[1] = <<0,0,1>>)  => R[1] = Rz(cfg.omega)
+      /\ (ax[1] = <<0,0,-1>>) => R[1] = Rz(AngNeg(cfg.omega))
+      \* axis -z, no pre-rotation: the conventions of the pipeline (RotateG), g = G k
+      /\ (ax[1] = <<0,0,-1>> /\ lat[2] = 1) =>
+            LET Gm == GOf(cfg, cfg.omega) IN /\ Gm[2] * out.lk[2] = out.g[2]
+                                             /\ MV(Gm[1], out.lk[1]) = out.g[1]
+
 \* ---------------------------------------------------------------------------------------
 B2I(b) == IF b THEN 1 ELSE 0
 ParJson == [ salt |-> cfg.salt, sw |-> cfg.sw, flip |-> cfg.flip, om |-> cfg.om, pk |-> cfg.pk, o |-> cfg.o,
@@ -443,6 +543,11 @@ Emit ==
                                 G |-> G, A |-> out.A, Bx |-> out.Bx,
                                 snum |-> out.snum, sden |-> out.sden, snd |-> out.snd,
                                 normlaw |-> B2I(NormFits) ]))
+   /\ stage = "axrotated" =>
+        PrintT("@@" \o ToJson([ mode |-> "ax", par |-> ParJson, q |-> cfg.q, nq |-> QuadList[cfg.q][2],
+                                axis |-> AxisList[lat[1]], ai |-> lat[1], pre |-> PreList[lat[2]], pi |-> lat[2],
+                                R |-> out.R, Rinv |-> out.Rinv, lk |-> out.lk, pk |-> out.pk, rpk |-> out.rpk,
+                                g |-> out.g, wc1 |-> << WC(cfg)[1][1], WC(cfg)[2] >> ]))
    /\ stage = "uncomputed" =>
         PrintT("@@" \o ToJson([ mode |-> cfg.mode, par |-> ParJson, q |-> cfg.q, m |-> cfg.m, scale |-> cfg.scale,
                                 d |-> d, nq |-> QuadList[cfg.q][2], gam |-> out.gam,
